@@ -4,6 +4,8 @@ R8.1 the duplicated reduce code of lr (driver) and lr_upto (replay) computes the
 R8.2 exactly one action call and one push of its result per reduction (none in lr_upto when no value stack is given)
 R8.3 arguments: rule of the production, the lexer, the span that is also pushed on the span stack, the drained child
      values of the production, a clone of the parse parameter
+R8.5 on a shift the span stack receives the span of the very lexeme pushed on the value stack
+R8.6 inserted lexemes handed to actions are positioned at the next real lexeme of the current input index (= C05 R5.1)
 R8.4 generic tree mode: child values mapped in order (value -> itself, lexeme -> fterm), then fnonterm(rule, nodes)
 """
 from mirlib import *
@@ -261,7 +263,15 @@ def r85(facts, res):
             res.bad(R, key, loc_of(b), 'no Shift path pushes a lexeme value')
 
 
+def r86(facts, res):
+    """the lexeme an action receives for an inserted token is the zero-length faulty lexeme positioned at the next real
+    lexeme of the CURRENT input index (shared with C05 R5.1: both sites that materialise an insertion)"""
+    import c05
+    c05.r51(facts, res, 'R8.6')
+
+
 def run(facts, res):
+    r86(facts, res)
     r85(facts, res)
     r81_82_83(facts, res)
     r84(facts, res)
